@@ -213,6 +213,15 @@ def exact_parts(obs, ens):
     return {"crps": crps, "unc": unc, "reli": reli, "pot": pot, "G": sum(g), "a": a, "b": b}
 
 
+def fr(x):
+    """exact rational of a float returned by the code; +-inf / NaN become a huge sentinel so that every
+    comparison with them fails (and is reported as a finding) instead of raising"""
+    x = float(x)
+    if math.isfinite(x):
+        return Fraction(x)
+    return Fraction(10 ** 400) * (-1 if x < 0 else 1)
+
+
 def qclose(x, q, tol):
     return (not isnan(x)) and math.isfinite(x) and abs(Fraction(x) - q) <= tol
 
@@ -245,10 +254,10 @@ class Oracle:
             self.flag("crps/negative_or_nan_component", "reliability, potential or uncertainty is negative or NaN",
                       case, reliability=reli, potential=pot, uncertainty=unc)
         else:
-            if abs(Fraction(crps) - (Fraction(reli) + Fraction(pot))) > tolg:
+            if abs(fr(crps) - (fr(reli) + fr(pot))) > tolg:
                 self.flag("crps/ne_reliability_plus_potential", "crps != reliability + potential", case,
                           crps=crps, reliability=reli, potential=pot)
-            if abs(Fraction(resol) - (Fraction(unc) - Fraction(pot))) > Fraction(4 * EPS) * max(Fraction(unc), Fraction(pot)):
+            if abs(fr(resol) - (fr(unc) - fr(pot))) > Fraction(4 * EPS) * max(fr(unc), fr(pot)):
                 self.flag("crps/resolution_ne_uncertainty_minus_potential", "resolution != uncertainty - potential",
                           case, resolution=resol, uncertainty=unc, potential=pot)
             if not qclose(reli, ex["reli"], tolg):
@@ -270,7 +279,7 @@ class Oracle:
             self.flag("crps/climatology_rejected", "crps(obs, climatology) is rejected", case, reply=clim[1])
             return
         tol = Fraction(16 * (2 * n + 16) * EPS) * ex["unc"] + Fraction(1, 10 ** 300)
-        if not qclose(clim[1][0], Fraction(res[1][3]), tol):
+        if not qclose(clim[1][0], fr(res[1][3]), tol):
             self.flag("crps/uncertainty_ne_climatology_crps",
                       "uncertainty differs from the CRPS returned for the climatology ensemble", case,
                       uncertainty=res[1][3], climatology_crps=clim[1][0])
@@ -284,14 +293,14 @@ class Oracle:
         bad = []
         for k, (x, y) in enumerate(zip(res[1], other[1])):
             t = tolg * f * (4 if k == 2 else 1)
-            if not qclose(y, Fraction(x) * f, t):
+            if not qclose(y, fr(x) * f, t):
                 bad.append(DEC[k])
         for k, (x, y) in enumerate(zip(res[2], other[2])):
             col = k % 7
             ff = f if col in (1, 2, 3, 5, 6) else Fraction(1)
             if isnan(x) != isnan(y):
                 bad.append(f"table[{k // 7}].{COLS[col]}")
-            elif not isnan(x) and not qclose(y, Fraction(x) * ff, self.tolfreq if col in (0, 4) else tolg * f):
+            elif not isnan(x) and not qclose(y, fr(x) * ff, self.tolfreq if col in (0, 4) else tolg * f):
                 bad.append(f"table[{k // 7}].{COLS[col]}")
         if bad:
             self.flag(sig, what, case, differs=bad[:6], **(extra or {}))
@@ -332,7 +341,7 @@ class Oracle:
                 delta = Fraction(EPS) * Fraction(big * (fac if kind == "scale" else 1.0) + (abs(c) if kind == "shift" else 0.0))
                 tol = 4 * delta + tolg * Fraction(fac)
                 for k in (0, 3):
-                    if not qclose(other[1][k], Fraction(res[1][k]) * Fraction(fac), tol):
+                    if not qclose(other[1][k], fr(res[1][k]) * Fraction(fac), tol):
                         self.flag("crps/shift_dependent" if kind == "shift" else "crps/scale_not_linear",
                                   f"{DEC[k]} not invariant/linear under {kind}", case, constant=c,
                                   before=res[1][k], after=other[1][k])
@@ -540,6 +549,38 @@ def run_cases(ctx, cases, tag):
         orc.missing(slim, res)
 
 
+def large_n(ctx):
+    """oracle only (the kernel is O(n^2), the model is not run): one call with many forecasts, where C `int`
+    products of the number of forecasts (n*n >= 2^31 from n = 46341) or float sums of n weights could go wrong"""
+    import numpy as np
+    from hydrodiy.stat import metrics
+    rng = ctx.rng
+    for n in ([rng.randint(46341, 47500)] if not ctx.thorough else [46341, rng.randint(46342, 65535), 65536, rng.randint(65537, 70000)]):
+        m = 1
+        obs = np.array([rng.gauss(0, 2) for _ in range(n)])
+        ens = (obs + np.array([rng.gauss(0, 1) for _ in range(n)])).reshape(n, m)
+        case = {"family": "large_n", "n": n, "m": m, "seed_values": "obs ~ N(0,2), member = obs + N(0,1)"}
+        try:
+            d, _ = metrics.crps(obs, ens)
+        except Exception as e:  # noqa
+            ctx.finding("crps/large_n/raises", "crps raises on a long series", {**case, "error": f"{type(e).__name__}: {e}"[:200]})
+            continue
+        so = np.sort(obs)
+        # sum_{i<k} |o_i - o_k| = sum_k (2k - n + 1) o_(k)  on the sorted sample
+        unc_def = float(np.sum((2 * np.arange(n) - n + 1) * so)) / (float(n) * float(n))
+        mae = float(np.mean(np.abs(ens[:, 0] - obs)))
+        vals = {k: float(d[k]) for k in DEC}
+        ctx.count(("large_n", n), True, "large_n", sample={"n": n, "m": m, **vals})
+        if not all(math.isfinite(v) for v in vals.values()) or vals["uncertainty"] < 0 or vals["reliability"] < 0 or vals["potential"] < 0:
+            ctx.finding("crps/large_n/negative_or_nan_component", "a decomposition term is negative or not finite for a long series", {**case, **vals})
+        elif abs(vals["uncertainty"] - unc_def) > 1e-9 * max(1.0, unc_def):
+            ctx.finding("crps/large_n/uncertainty_ne_pairwise", "uncertainty differs from sum|y_k-y_l|/(2 n^2) for a long series", {**case, **vals, "required": unc_def})
+        elif abs(vals["crps"] - mae) > 1e-9 * max(1.0, mae):
+            ctx.finding("crps/large_n/value_ne_definition", "single-member CRPS differs from the mean absolute error for a long series", {**case, **vals, "required": mae})
+        elif abs(vals["crps"] - (vals["reliability"] + vals["potential"])) > 1e-9 or abs(vals["resolution"] - (vals["uncertainty"] - vals["potential"])) > 1e-9:
+            ctx.finding("crps/large_n/decomposition", "decomposition identities fail for a long series", {**case, **vals})
+
+
 def body(ctx):
     # replay of one recorded case
     if getattr(ctx, "replay", None) and isinstance(ctx.replay.get("case"), dict) and "obs" in ctx.replay["case"]:
@@ -558,6 +599,7 @@ def body(ctx):
                            "layout": c.get("layout", "flat"), "grid": bool(c.get("grid", False))})
     run_cases(ctx, corpus, "corpus")
     run_cases(ctx, gen_cases(ctx), "gen")
+    large_n(ctx)
     ctx.extra["rule"] = __doc__.split("Cases:")[1].strip()
     ctx.assumptions += [
         "glibc qsort returns a sorted permutation (model parameter `sort`, hypothesis SortOK; the driver uses a stable merge sort)",
